@@ -80,7 +80,10 @@ def gen(d, tier):
             return p.swapcase()
         return p
     for _ in range(n):
-        k = d.weighted((("create", 5), ("mkdir", 4), ("rename", 4), ("upload", 3), ("delete", 3), ("read", 3), ("bad", 2)))
+        k = d.weighted((("create", 5), ("mkdir", 4), ("rename", 4), ("upload", 3), ("delete", 3), ("read", 3), ("bad", 2), ("reconnect", 1)))
+        if k == "reconnect":
+            acts.append(["reconnect"])
+            continue
         if k == "create":
             p = newpath() if d.chance(4, 5) else (disp[existing()] if existing() else newpath())
             acts.append(["create", variant(p), content()])
@@ -169,7 +172,8 @@ def make_provider(flav):
         from cloudsync.providers.filesystem import FileSystemProvider
         d = tempfile.mkdtemp(prefix="fsprov-", dir=shims.scratch())
         p = FileSystemProvider()
-        p.namespace_id = d      # (sets up the observer; the provider needs no connection for file operations)
+        p.namespace_id = d      # (sets up the observer)
+        p.connect({"key": "val"})
         # the inotify watch is registered asynchronously by the observer thread: wait until it demonstrably works
         probe = os.path.join(d, ".probe")
         t0 = time.time()
@@ -231,7 +235,7 @@ def _run(trace, flav, prov):
     ci = flav.endswith("_ci")
     ref = Ref(ci)
     muts = []           # (kind, oid, exists) expected in the event stream
-    flags = {"big": False, "dir_rename": False, "expected_error": False, "replaced_empty_folder": False}
+    flags = {"big": False, "dir_rename": False, "expected_error": False, "replaced_empty_folder": False, "reconnect": False}
     id_style = not prov.oid_is_path
     list(prov.events())     # start from a clean stream
 
@@ -251,6 +255,12 @@ def _run(trace, flav, prov):
         if flav == "fs" and _ATTEMPT[0]:
             time.sleep(0.03)
         k = a[0]
+        if k == "reconnect":
+            # what pausing and resuming a sync does to a provider: the stream must go on reporting afterwards
+            prov.disconnect()
+            prov.reconnect()
+            flags["reconnect"] = True
+            continue
         if k == "create":
             p, data = a[1], blob(a[2])
             ps = ref.parent_state(p)
